@@ -291,7 +291,7 @@ Qed.
 
 Lemma monic_body (qz rz : list Z) (M Q : Z) : cb Q qz -> cb M rz -> 0 <= M -> 0 <= Q ->
   rz <> [] -> (length vz <= length rz)%nat -> M * (1 + V) < 2 ^ 53 -> Q + M < 2 ^ 53 ->
-  body_fits (ZA := AZ) Z.abs qz rz vz /\
+  body_fits (ZA := AZ) Z.abs (fun _ _ => True) qz rz vz /\
   forall q' r', polydiv_body (A := AZ) qz rz vz = Ok (q', r') ->
     cb (Q + M) q' /\ cb (M * (1 + V)) r' /\ ((length r' < length rz)%nat \/ is_zero (A := AZ) r' = true).
 Proof.
@@ -313,10 +313,11 @@ Proof.
     specialize (HM k). specialize (Hm c k Hc'). lia. }
   split.
   - (* body_fits *)
-    intros c Ec. change (T AZ) with Z in Ec. rewrite (rd_ok rz (length rz - 1) 0) in Ec by lia. cbn [bind] in Ec.
-    rewrite (rd_ok vz (length vz - 1) 0) in Ec by lia. cbn [bind] in Ec.
+    intros rl vl c E1 E2 Ec. change (T AZ) with Z in E1, E2.
+    rewrite (rd_ok rz (length rz - 1) 0) in E1 by lia. rewrite (rd_ok vz (length vz - 1) 0) in E2 by lia.
+    injection E1 as <-. injection E2 as <-.
     pose proof (Hc c Ec) as Hc'. fold n. cbv zeta. change (@zero AZ) with 0.
-    split; [nia|]. split; [apply (cb_fits (Q + M)); auto|]. split.
+    split; [exact I|]. split; [nia|]. split; [apply (cb_fits (Q + M)); auto|]. split.
     + intros _ _ k _. unfold nconv. rewrite (pmul_coeff_conv AZ_ring), map_abs_monomial, AZ_conv_monomial.
       match goal with |- context [(?a <=? k)%nat] => destruct (a <=? k)%nat end; [|reflexivity].
       rewrite nth_map_abs. pose proof (HV (k - n)%nat) as HVk. unfold n in HVk.
@@ -348,7 +349,7 @@ Proof.
 Qed.
 
 Lemma loop_fits_zero fuel count (qz rz : list Z) : is_zero (A := AZ) rz = true ->
-  loop_fits (ZA := AZ) Z.abs fuel count qz rz vz.
+  loop_fits (ZA := AZ) Z.abs (fun _ _ => True) fuel count qz rz vz.
 Proof. intros H. destruct fuel; cbn [loop_fits]; rewrite H; exact I. Qed.
 
 Section Loop.
@@ -368,7 +369,7 @@ Proof.
 Qed.
 
 Lemma monic_loop (fuel : nat) : forall count (qz rz : list Z), (count + length rz <= Lu)%nat ->
-  cb (K count) qz -> cb (K count) rz -> loop_fits (ZA := AZ) Z.abs fuel count qz rz vz.
+  cb (K count) qz -> cb (K count) rz -> loop_fits (ZA := AZ) Z.abs (fun _ _ => True) fuel count qz rz vz.
 Proof.
   induction fuel as [|fuel IH]; intros count qz rz Hc HQ HM; cbn [loop_fits];
     match goal with |- context [if ?b then _ else _] => destruct b eqn:C end; try exact I.
@@ -388,7 +389,7 @@ End Loop.
 
 (* the closed form: |u_i| <= U, |v_j| <= V, leading coefficient of v = +-1, U (1+V)^(len u - len v + 1) < 2^53 *)
 Lemma polydiv_fits_monic (uz : list Z) (U : Z) : 0 <= U -> cb U uz ->
-  U * (1 + V) ^ Z.of_nat (length uz - length vz + 1) < 2 ^ 53 -> polydiv_fits (ZA := AZ) Z.abs uz vz.
+  U * (1 + V) ^ Z.of_nat (length uz - length vz + 1) < 2 ^ 53 -> polydiv_fits (ZA := AZ) Z.abs (fun _ _ => True) uz vz.
 Proof.
   intros U0 HU HB. unfold polydiv_fits.
   apply (monic_loop (length uz) U U0 HB); [lia| |].
